@@ -469,6 +469,27 @@ func check(prop, tier string) int {
 	return exit
 }
 
+// witnessArg passes a witness to a worker: short ones on the command line,
+// long ones (a single argument is limited to 128 KiB) through a file named
+// by an @ argument.
+var witnessFiles int
+
+func witnessArg(w string) string {
+	if len(w) < 60000 {
+		return w
+	}
+	dir := workDir
+	if dir == "" {
+		dir = os.TempDir()
+	}
+	witnessFiles++
+	p := filepath.Join(dir, fmt.Sprintf("witness-%d-%d.txt", os.Getpid(), witnessFiles))
+	if err := os.WriteFile(p, []byte(w), 0o644); err != nil {
+		fatal("cannot write the witness file: %v", err)
+	}
+	return "@" + p
+}
+
 func trunc(s string, n int) string {
 	if len(s) > n {
 		return s[:n] + "..."
@@ -483,7 +504,7 @@ func confirm(bin string, job Job, prop string, v Violation) (bool, string) {
 		n = 2 // every replay of a non-returning call costs the whole watchdog limit
 	}
 	for i := 0; i < n; i++ {
-		args := []string{job.Engine, "-props", prop, "-replay", v.Witness}
+		args := []string{job.Engine, "-props", prop, "-replay", witnessArg(v.Witness)}
 		args = append(args, job.Args...)
 		rep, err := runWorker(bin, args, append(workerEnv(), "VH_WATCHDOG_S=12"))
 		if v.Kind == "process-crash" {
@@ -591,7 +612,7 @@ func replay(path string) int {
 	if rf.Race {
 		bin = bl.race
 	}
-	args := append([]string{rf.Engine, "-props", rf.Property, "-replay", rf.Witness}, rf.Args...)
+	args := append([]string{rf.Engine, "-props", rf.Property, "-replay", witnessArg(rf.Witness)}, rf.Args...)
 	rep, err := runWorker(bin, args, workerEnv())
 	if err != nil {
 		fatal("%v", err)
@@ -599,7 +620,7 @@ func replay(path string) int {
 	n := 0
 	for _, v := range rep.Violations {
 		if v.Prop == rf.Property {
-			fmt.Printf("VIOLATION property=%s replay=%s\n  kind=%s\n  witness=%s\n  detail=%s\n", v.Prop, path, v.Kind, v.Witness, v.Detail)
+			fmt.Printf("VIOLATION property=%s replay=%s\n  kind=%s\n  witness=%s\n  detail=%s\n", v.Prop, path, v.Kind, trunc(v.Witness, 2000), trunc(v.Detail, 4000))
 			n++
 		}
 	}
